@@ -1024,6 +1024,8 @@ fn exec_step(c: &mut Ctx, st: &Step) -> Result<(), String> {
             if res.is_ok() {
                 c.rows[*row].author = who;
                 after_data_op(c, who, true)?;
+            } else if has(&c.cfg, "C12") && !exp && *big == 0 {
+                offer_refused_change(c, who, *row, false)?;
             }
         }
         Step::Move { who, row, to, dt } => {
@@ -1068,6 +1070,8 @@ fn exec_step(c: &mut Ctx, st: &Step) -> Result<(), String> {
             if res.is_ok() {
                 c.rows[*row].alive = false;
                 after_data_op(c, who, true)?;
+            } else if has(&c.cfg, "C12") && !exp {
+                offer_refused_change(c, who, *row, true)?;
             }
         }
         Step::RefAdd { who, row, target, dt } | Step::RefDel { who, row, target, dt } => {
@@ -1320,6 +1324,74 @@ fn after_data_op(c: &mut Ctx, who: usize, _accepted: bool) -> Result<(), String>
 }
 
 /// C12 reverse direction: a creation refused locally for lack of right, signed by the refused author and offered to a peer
+/// C12, the other direction for rows that exist: an update or a deletion refused locally for lack of right is signed with
+/// the refused author's key and handed to a peer through the real ingestion entry points (filter_existing_node + add_nodes,
+/// delete_nodes): the peer must refuse it too and keep the row as it was.
+fn offer_refused_change(c: &mut Ctx, who: usize, row: usize, deletion: bool) -> Result<(), String> {
+    let Some((id, _ent, room, _author)) = row_info(c, row) else { return Ok(()) };
+    let Some(rr) = c.rooms.get(room).cloned().flatten() else { return Ok(()) };
+    let Ok(uid_row) = dv::uid_decode(&id) else { return Ok(()) };
+    let other = (who + 1) % c.cfg.nodes;
+    let stored = {
+        let d = oracle::dump_room(&c.w.nodes[other].oracle_conn()?, &rr.uid)?;
+        d.nodes.into_iter().find(|n| n.id == uid_row.to_vec())
+    };
+    let Some(stored) = stored else { return Ok(()) };
+    let date = c.w.nodes[who].clock.max(stored.mdate + 1);
+    let key = c.w.nodes[who].signing_key();
+    let old = dv::Node {
+        id: uid_row,
+        room_id: Some(rr.uid),
+        cdate: stored.cdate,
+        mdate: stored.mdate,
+        _entity: stored.entity.clone(),
+        _json: stored.json.clone(),
+        _binary: stored.binary.clone(),
+        verifying_key: stored.author.clone(),
+        _signature: stored.signature.clone(),
+        _local_id: None,
+    };
+    let db = c.w.nodes[other].dbh();
+    let room_uid = rr.uid;
+    if deletion {
+        let entry = dv::NodeDeletionEntry::build(room_uid, &old, date, &key);
+        let _ = c.w.nodes[other].run(async move { db.delete_nodes(vec![entry]).await.map_err(|e| e.to_string()) }).map_err(|e| format!("{e:?}"))?;
+    } else {
+        let mut newer = old.clone();
+        newer.mdate = date;
+        newer._json = newer._json.map(|j| j.replace("row", "rov"));
+        newer.sign(&key).map_err(|e| e.to_string())?;
+        let ident = dv::NodeIdentifier { id: newer.id, mdate: newer.mdate, signature: newer._signature.clone() };
+        let _ = c.w.nodes[other]
+            .run(async move {
+                let mut set = std::collections::HashSet::new();
+                set.insert(ident);
+                let mut list = db.filter_existing_node(set).await.map_err(|e| e.to_string())?;
+                for nti in list.iter_mut() {
+                    let mut n = newer.clone();
+                    n._local_id = nti.old_local_id;
+                    nti.node = Some(n);
+                }
+                db.add_nodes(room_uid, list).await.map_err(|e| e.to_string())
+            })
+            .map_err(|e| format!("{e:?}"))?;
+    }
+    c.w.probe("c12_refused_change_offered");
+    let d = oracle::dump_room(&c.w.nodes[other].oracle_conn()?, &rr.uid)?;
+    let now_stored = d.nodes.iter().find(|n| n.id == uid_row.to_vec());
+    let unchanged = now_stored.map(|n| n.signature == stored.signature).unwrap_or(false);
+    let logged = d.node_del.iter().any(|t| t.id == uid_row.to_vec());
+    if !unchanged || (deletion && logged) {
+        let what = if deletion { "delete" } else { "update" };
+        c.w.violation(
+            "C12",
+            &format!("local-reject-peer-accept/{what}:no-right"),
+            format!("n{who} is refused the {what} locally, but the same {what} signed by n{who} is applied by n{other} (row unchanged: {unchanged}, deletion record stored: {logged})"),
+        );
+    }
+    Ok(())
+}
+
 fn offer_refused_create(c: &mut Ctx, who: usize, room: usize, ent: usize) -> Result<(), String> {
     let Some(rr) = c.rooms.get(room).cloned().flatten() else { return Ok(()) };
     // a template row of that entity gives the storage names
